@@ -145,16 +145,10 @@ class ContentElement:
     '''Attaches the element to `doc`, or detaches it from its current owning
     `ContentDocument` if `doc` is `None`.'''
 
-    if doc is None:
+    if self.parent() is not None:
+      raise RuntimeError("Element must be removed from parent first")
 
-      # detaching
-
-      if self.parent() is not None:
-        raise RuntimeError("Element must be removed from parent first")
-
-      self.set_region(None)
-
-    else:
+    if doc is not None:
 
       # attaching
 
@@ -162,10 +156,19 @@ class ContentElement:
         if e.is_attached():
           raise RuntimeError("Element must be detached first")
 
-    self._doc = doc
+    # pylint: disable=W0212
 
-    for e in self:
-      e.set_doc(doc)
+    for e in self.dfs_iterator():
+
+      if doc is None:
+
+        # detaching
+
+        e._region = None
+
+      e._doc = doc
+
+    # pylint: enable=W0212
 
   # hierarchical structure
 
